@@ -8,12 +8,15 @@
    On the fragment of Properties_C03 (integers, keywords, vectors, lists; any size and nesting) two whole documents that
    render one term with DIFFERENT trivia are read to values that edn_value_equal judges equal and that hash alike
    (C13_renderings_read_equal; nesting below the equality's own depth cap, finding K10).
-   PARTIAL: that a DISCARDED FORM in front of a form leaves the value unchanged, and the comparison of two different
-   documents (with / without the trivia, positions shifted) is decided by the correspondence run + metamorphic oracle. *)
+   The same with DISCARDED FORMS in every gap (C13_gaps_never_change_the_value): any alternation of trivia runs and
+   discards  #_ <trivia> <form>  whose form is again any term of the grammar (discards nest; discarded collections
+   contain discards) may stand in front of each element and of the closer.
+   PARTIAL: the document-level theorems cover the fragment only; the other kinds, handler call logs and shifted positions
+   are decided by the correspondence run + metamorphic oracle. *)
 From Coq Require Import ZArith NArith List Bool String.
 From Coq.Strings Require Import Byte.
 From Verif Require Import Lanes Common Values Scan Reader ScanProofs TriviaProofs TriviaReader DiscardInv.
-From Verif Require Import Equality Configs FlagProofs RoundTrip RoundTripWs RoundTripEq.
+From Verif Require Import Equality Configs FlagProofs RoundTrip RoundTripWs RoundTripEq RoundTripGap.
 Import ListNotations.
 
 (* whitespace bytes, commas and LF-terminated comments in front of anything: the scanner
@@ -69,6 +72,29 @@ Theorem C13_renderings_read_equal : forall c o m1 m2 a1 a2, In c all_cfgs -> awf
     run_doc c o m2 (N.of_nat (List.length (prg a2))) = Ret r2 s2 /\ r_value r2 = Some n2 /\ r_err r2 = EOk /\
     equal c no_ext_equal n1 n2 = true /\ hash_value c no_ext_hash n1 = hash_value c no_ext_hash n2.
 Proof. exact renderings_read_equal. Qed.
+(* ... and whatever discarded forms: both renderings are accepted, denote the same term, are equal and hash alike *)
+Theorem C13_gaps_never_change_the_value : forall c o m1 m2 a1 a2, In c all_cfgs -> gwf a1 -> gwf a2 -> gerase a1 = gerase a2 ->
+  (tdepth (gerase a1) <= max_depth)%nat ->
+  slice m1 0 (List.length (gpr a1)) = gpr a1 -> slice m2 0 (List.length (gpr a2)) = gpr a2 ->
+  exists r1 s1 n1 r2 s2 n2,
+    run_doc c o m1 (N.of_nat (List.length (gpr a1))) = Ret r1 s1 /\ r_value r1 = Some n1 /\ r_err r1 = EOk /\
+    run_doc c o m2 (N.of_nat (List.length (gpr a2))) = Ret r2 s2 /\ r_value r2 = Some n2 /\ r_err r2 = EOk /\
+    denotes c (gerase a1) n1 /\ denotes c (gerase a1) n2 /\
+    equal c no_ext_equal n1 n2 = true /\ hash_value c no_ext_hash n1 = hash_value c no_ext_hash n2.
+Proof. exact gaps_never_change_the_value. Qed.
+(* non-vacuity:  [#_:x 1 #_[2 #_ 3 4] , (:a #_(;c<LF>) -20) #_ 7]  renders  [1 (:a -20)]  *)
+Example C13_gap_example :
+  let d1 := GDisc [] (GKw ["x"%byte]) in
+  let d2 := GDisc [] (GSeq true [([], GInt false ["2"%byte]); ([GWs [" "%byte]; GDisc [" "%byte] (GInt false ["3"%byte]); GWs [" "%byte]], GInt false ["4"%byte])] []) in
+  let d3 := GDisc [] (GSeq false [] [GWs [";"; "c"; "010"]%byte]) in
+  let a := GSeq true [([d1; GWs [" "%byte]], GInt false ["1"%byte]);
+                      ([GWs [" "%byte]; d2; GWs [" "; ","; " "]%byte], GSeq false [([], GKw ["a"%byte]); ([GWs [" "%byte]; d3; GWs [" "%byte]], GInt true ["2"; "0"]%byte)] [])]
+                     [GWs [" "%byte]; GDisc [" "%byte] (GInt false ["7"%byte])] in
+  gwf a /\ gpr a = list_byte_of_string ("[#_:x 1 #_[2 #_ 3 4] , (:a #_(;c" ++ String (Ascii.ascii_of_nat 10) ") -20) #_ 7]") /\
+  gerase a = TVec [TInt false ["1"%byte]; TList [TKw ["a"%byte]; TInt true ["2"; "0"]%byte]] /\
+  (tdepth (gerase a) <= max_depth)%nat.
+Proof. exact gap_example. Qed.
+
 (* non-vacuity: "[1, ( :a;c<LF>-20<TAB>),[] ]" is such a rendering of [1 (:a -20) []] *)
 Example C13_rendering_example :
   let a := ASeq true [([], AInt false ["1"%byte]); ([","; " "]%byte, ASeq false [([" "]%byte, AKw ["a"%byte]); ([";"; "c"; "010"]%byte, AInt true ["2"; "0"]%byte)] ["009"%byte]);
@@ -82,6 +108,7 @@ Example C13_example : trivia [" "; ","; ";"; "x"; "010"; "009"]%byte.
 Proof. reflexivity. Qed.
 
 Print Assumptions C13_renderings_read_equal.
+Print Assumptions C13_gaps_never_change_the_value.
 Print Assumptions C13_reader_absorbs_trivia.
 Print Assumptions C13_trivia_only_document.
 Print Assumptions C13_trivia_insertion.
